@@ -823,11 +823,11 @@ def ESlab.rounded (ttOk : List Nat → Bool) (ttRecon : List Nat → List Nat) (
   ⟨s.dim, s.ents.filterMap (fun p => (embRound ttOk ttRecon s.dim p.2).map (fun w => (p.1, w)))⟩
 
 /-- closed form of `SlabRouter::restore(snapshot())` on a well-formed router -/
-theorem router_restore_snapshot (ttOk : List Nat → Bool) (ttRecon : List Nat → List Nat) (fx : GFix) (r : Router) (h : r.WF) :
-    Router.restore ttRecon fx (r.snapshot ttOk).2 =
+theorem router_restore_snapshot (ttOk : List Nat → Bool) (ttRecon : List Nat → List Nat) (r : Router) (h : r.WF) :
+    Router.restore ttRecon (r.snapshot ttOk).2 =
       ⟨r.index, r.emb.rounded ttOk ttRecon, r.md,
        ⟨r.cache.cap, packed ((occupied r.cache.slots).map resetAccess) (r.cache.cap - (occupied r.cache.slots).length)⟩,
-       GraphT.restore fx r.graph.snapshot.2, BlobLog.restore r.blobs.snapshot⟩ := by
+       GraphT.restore r.graph.snapshot.2, BlobLog.restore r.blobs.snapshot⟩ := by
   unfold Router.restore Router.snapshot
   simp only [EIndex.restore, EIndex.snapshot, restoreMeta]
   rw [eslab_restore_snapshot ttOk ttRecon r.emb h.emb.nd, foldl_aInsert_nil r.md h.md,
